@@ -40,10 +40,7 @@ def cases_(draw):
     pkg = draw(gen_dump.dump_package(tfp=opts['tfp'], sort_fields=alpha or mixed))
     if mixed:
         # force_format=False: every resource is written in the format its own path names
-        opts['force_format'] = False
-        for r in pkg:
-            base = os.path.splitext(r.get('path') or (r['name'] + '.csv'))[0]
-            r['path'] = base + '.' + draw(st.sampled_from(['csv', 'json']))
+        gen_dump.per_resource_formats(draw, pkg, opts)
     return {'pkg': pkg, 'opts': opts}
 
 
